@@ -4,6 +4,17 @@ sys.path.insert(0, os.path.dirname(os.path.dirname(os.path.abspath(__file__))))
 from common_texts import COMMON_NOTE
 
 
+from props import default_compare
+
+
+def compare(case, verdict):
+    r = default_compare(case, verdict)
+    if verdict.get("model") is None and not (isinstance(case.get("impl"), dict) and "panic" in case["impl"]):
+        # multi-task candidates: no executable model of eval_multi; the quote-vs-realised oracle only
+        r["agree"] = True
+    return r
+
+
 def nontrivial(case, v):
     rows = [r for r in (case.get("impl") or {}).get("rows", []) if r]
     return len(case.get("tour", [])) >= 2 and any(r["cost"][2] != 0 for r in rows)
@@ -13,8 +24,10 @@ def extra(cases, verdicts):
     rows = sum(1 for c in cases for r in (c.get("impl") or {}).get("rows", []) if r)
     nowait = sum(verdicts.get(c["id"], {}).get("info", {}).get("nowait_cost_rows", 0) for c in cases)
     value = sum(verdicts.get(c["id"], {}).get("info", {}).get("value_rows", 0) for c in cases)
+    multi = [c for c in cases if c.get("k") == "multi"]
+    multi_ok = sum(1 for c in multi for r in (c.get("impl") or {}).get("rows", []) if r)
     return {"quotes_compared_with_realised_change": rows, "cost_objective_rows_without_waiting": nowait,
-            "rows_with_value_layer": value, "value_read_mode": {m: sum(1 for c in cases if (c.get("values") or {}).get("mode") == m) for m in ("job", "actor")},
+            "rows_with_value_layer": value, "multi_task_candidates": len(multi), "multi_task_candidates_placed_and_compared": multi_ok, "value_read_mode": {m: sum(1 for c in cases if (c.get("values") or {}).get("mode") == m) for m in ("job", "actor")},
             "objective_mix": {"cost": sum(1 for c in cases if c["obj"] == "cost"), "distance": sum(1 for c in cases if c["obj"] == "distance")}}
 
 
@@ -22,8 +35,9 @@ CLAIMED = True
 
 PROP = dict(
     proof_modules=["VrpProofs.C20"], model_modules=["VrpModel.Route", "VrpModel.C06", "VrpModel.C20"],
-    drv="drv_c20", bin="c20", nontrivial=nontrivial, extra_evidence=extra,
-    rule="same tour/job generator as C06 (single-task jobs); for every position the real evaluator accepts: quote from "
+    drv="drv_c20", bin="c20", compare=compare, nontrivial=nontrivial, extra_evidence=extra,
+    rule="same tour/job generator as C06 (single-task jobs; every fifth candidate is a multi-task job - pickup then delivery - with a value: one row, "
+         "the best placement found by the sequential search, oracle only); for every position the real evaluator accepts: quote from "
          "eval_job_insertion_in_route(Concrete(p)), insertion carried out by the real InsertionHeuristic at that position, fitness "
          "before/after from the real GoalContext::fitness. Non-trivial: tour has >= 2 activities and a quote with a non-zero transport "
          "component. Distinct = SHA-256 of the canonical case input",
@@ -48,7 +62,8 @@ META = dict(
          "change == quote per additive layer, and for the combined cost objective whenever the tour has no waiting before and after.",
     note=COMMON_NOTE + " Every clause of the statement has a theorem about the model (unassigned, tours, distance, value at every position; combined "
          "cost without waiting for a tour with jobs - quote_exact_cost_noWait - and for the first job of an unused tour - quote_exact_cost_first). "
-         "With waiting the cost quote is an estimate by design (the property excludes it). Limits of the model: one vehicle, single-task jobs, "
+         "With waiting the cost quote is an estimate by design (the property excludes it). Limits of the model: one vehicle, single-task jobs (multi-task candidates are judged by the quote-vs-realised oracle on the real numbers: "
+         "no model of eval_multi), "
          "time-independent routing, integer data (f64 rounding out of model).",
     technique="Lean 4 list lemmas (totalDist over append, omega) + exact differential correspondence of quotes and realised fitness changes",
 )
